@@ -118,6 +118,7 @@ func main() {
 		r.serial = optVal(*extra, "serial", "") == "1"
 		r.sy.prefix = optVal(*extra, "prefix", "") == "1"
 		r.sy.sparse = optVal(*extra, "sparse", "") == "1"
+		r.sy.xorzero = optVal(*extra, "xorzero", "") == "1"
 		if *tlclog != "" {
 			f, err := os.Create(*tlclog)
 			if err != nil {
@@ -387,6 +388,7 @@ func replayOne(cfg Config, path string) int {
 	r.serial = optVal(v.X, "serial", "") == "1"
 	r.sy.prefix = optVal(v.X, "prefix", "") == "1"
 	r.sy.sparse = optVal(v.X, "sparse", "") == "1"
+	r.sy.xorzero = optVal(v.X, "xorzero", "") == "1"
 	l, _, err := parseTLCLine(string(v.Line))
 	if err != nil {
 		fmt.Fprintln(os.Stderr, "ERROR", err)
